@@ -6,7 +6,7 @@ for pair in "A:$IDA" "B:$IDB"; do
   SUB="${pair%%:*}"; ID="${pair##*:}"
   [ -f "$WT/deliver/$SUB/patch.diff" ] || { echo "$ID: no patch"; continue; }
   /verif/tools/verify_mutant.sh "$WT" "$SUB" "$ID" websocket,value-stream > /dev/null 2>&1
-  /verif/tools/try_mutant.sh "$ID" "$PROP" 2>&1 | tail -n +1 | cut -c1-330
+  /verif/tools/try_mutant_isolated.sh "$ID" "$PROP" 2>&1 | tail -n +1 | cut -c1-330
   NEEDS=$(grep -i -A6 "needs to manifest" "$WT/deliver/$SUB/meta.md" | tail -n +2 | tr '\n' ' ' | cut -c1-500)
   python3 /verif/tools/mkmeta.py "$ID" "$PROP" "independent sub-agent (given only the property text and a scratch worktree)" "$NEEDS"
 done
